@@ -2,12 +2,41 @@ import ScrutModel.Model.Markdown
 /-!
 # Vocabulary for the statements about the Markdown model (no executable content)
 
+* `isFenceLine` – what the property calls the opening line of a fenced code block;
 * `number`, `Covers` – "the tokens partition the document";
 * `Doc`, `render`, `Doc.tests` – the generator's view of a well-formed document.
 * `Tail`, `tailTests`, `titleAfter` – … of a document whose last construct is unterminated.
 -/
 namespace Scrut.Markdown
 open Scrut.LineParser
+
+/-! ## what a fence line is, according to the property
+
+The property speaks of "fenced code blocks" and demands that "prose (including inline code and
+text containing backticks) never create, hide or truncate tests".  The reading (CommonMark, for
+fences that start in the first column): the opening line of a fenced block is a run of three or
+more backticks followed by an info string **that holds no backtick** – in scrut's reading: no
+backtick in front of the inline configuration `{…}` (the configuration is scrut's own extension of
+the info string and may hold any character, e.g. an environment value with a backtick; C17 demands
+that it is read back).  A line that starts with three or more backticks and has another backtick
+behind them, before any `{`, is an inline code span, e.g.
+"```` ``` ```` is how three backticks are written inline." – prose.  `isFenceLine` is this reading,
+written without reference to the code; `Lemmas/Markdown.lean` (`fence_iff_spec`) proves that the
+fence recogniser of the code (`extractCodeBlockStart`) accepts exactly these lines, and that the
+fence it reports is the run of backticks. -/
+
+/-- the run of backticks at the start of the line -/
+def fenceTicks (l : Line) : Line := l.takeWhile (· = '`')
+/-- the rest of the line behind them: the info string (language and `{…}`), untrimmed -/
+def fenceInfo (l : Line) : Line := l.dropWhile (· = '`')
+
+/-- the part of the info string in front of the inline configuration: the text before the first
+`{` (the language, untrimmed) -/
+def fenceLang (l : Line) : Line := (fenceInfo l).takeWhile (· ≠ '{')
+
+/-- the line opens a fenced code block: at least three backticks, then an info string that holds
+no backtick in front of the inline configuration (possibly empty) -/
+def isFenceLine (l : Line) : Bool := decide (3 ≤ (fenceTicks l).length) && !(fenceLang l).contains '`'
 
 /-- the lines with their 0-based indices, starting at `start` -/
 def number (start : Nat) : List Line → Numbered
@@ -119,7 +148,8 @@ structure Fenced where
 def Fenced.lines (v : Fenced) : List Line := v.opener :: (v.body ++ [v.closer])
 
 inductive Item where
-  /-- any line that is not a fence start (blank, text, heading, backtick-led prose, …) -/
+  /-- any line that is not a fence start (blank, text, heading, backtick-led prose such as a line
+  that starts with an inline code span "```` ``` ```` …", …) -/
   | prose (l : Line)
   /-- `---`, lines, `---` -/
   | front (body : List Line)
@@ -182,7 +212,7 @@ non-blank line or a code block came before).  Front-matter is only front-matter 
 has started; a prose line `---` is only prose once it has. -/
 def Item.WF (env : Env) (cs : Bool) : Item → Prop
   | .prose l => extractCodeBlockStart l = .ok none ∧ (cs = false → l ≠ frontMatterFence)
-  | .front body => cs = false ∧ (∀ x ∈ body, x ≠ frontMatterFence) ∧ env.docCfgOk (joinNl body) = true
+  | .front body => cs = false ∧ (∀ x ∈ body, x ≠ frontMatterFence) ∧ env.docCfgOk (joinNl body ++ ['\n']) = true
   | .block b => b.WF env
   | .foreign v => v.ForeignWF env
   | .noCommand v => v.NoCommandWF env
@@ -332,7 +362,7 @@ no content has started (`cs = false`; afterwards a line `---` is prose and the l
 ordinary items). -/
 def Tail.WF (env : Env) (cs : Bool) : Tail → Prop
   | .none => True
-  | .openFront body => cs = false ∧ (∀ x ∈ body, x ≠ frontMatterFence) ∧ env.docCfgOk (joinNl body) = true
+  | .openFront body => cs = false ∧ (∀ x ∈ body, x ≠ frontMatterFence) ∧ env.docCfgOk (joinNl body ++ ['\n']) = true
   | .openForeign v => v.OpenForeignWF env
   | .openNoCommand v => v.OpenNoCommandWF env
   | .openBlock b => b.OpenWF env
